@@ -672,12 +672,15 @@ def _worker(args):
     try:
         for attempt in range(12):
             bkw = dict(kw)
+            # kw extras: "fmts" restricts the value formats, "N_sympy" caps the order of the (slow) exact SymPy family
+            fmts = bkw.pop("fmts", None) or ["sympy", "sympy", "dense", "sparse"]
+            nsym = bkw.pop("N_sympy", None)
             if rel in ("merge", "permute"):
                 bkw["max_params"] = max(2, bkw.get("max_params", 2))
+            fmt = rng.choice(fmts)
             if rel == "direct_sum":
                 bkw["max_blocks"] = min(2, bkw.get("max_blocks", 3))
                 bkw["max_size"] = min(2, bkw.get("max_size", 3))
-                fmt = rng.choice(["sympy", "sympy", "dense", "sparse"])
                 a = gen.random_case(rng, fmt=fmt, **bkw)
                 b = gen.random_case(rng, fmt=fmt, **bkw)
                 tries = 0
@@ -686,9 +689,12 @@ def _worker(args):
                     tries += 1
                 bases = [a, b]
             else:
-                bases = [gen.random_case(rng, **bkw)]
+                bases = [gen.random_case(rng, fmt=fmt, **bkw)]
                 if rel in ("merge", "permute") and bases[0]["nparam"] < 2:
                     continue
+            if nsym and fmt == "sympy":
+                for c in bases:
+                    c["N"] = min(c["N"], nsym)
             P = draw_params(rel, bases, rng)
             if P is None:
                 continue
